@@ -13,7 +13,7 @@
 //    the top of the queue is 87 again, ... forever.
 //
 // The history is run in a child process; the parent reports how the child ended.
-// Build: g++ -std=gnu++17 -O1 -g -fsanitize=address,undefined -I/tmp/seed/P16/src/Toplex_map/include defect_2.cpp -o defect_2
+// Build: g++ -std=gnu++17 -O1 -g -fsanitize=address,undefined -I/repo/src/Toplex_map/include defect_2.cpp -o defect_2
 //   (same result without the sanitizers and with -DNDEBUG: the child dies with SIGSEGV)
 #include <gudhi/Lazy_toplex_map.h>
 #include <cstdio>
